@@ -8,6 +8,7 @@ from .. import hdscen, sched
 from ..bfs import bfs
 
 LEVEL = "model_checking"
+CASE_TIMEOUT = 7200.0          # one case = one schedule sub-tree (thorough: minutes)
 P = "C13"
 H = hd.H
 KINDS = ("p2pkh", "p2wpkh", "p2sh_p2wpkh", "p2wsh", "p2sh_p2wsh")
